@@ -23,8 +23,10 @@ TRUSTED = ['json.dumps emits valid JSON for the dict it is given (the run re-par
            'object identity (parent links) is checked on the real object graph at run time, not modelled']
 ASSUMPTIONS = ['child-kind discipline, parent links and scalar ranges of parsed trees are run-time checks by the '
                'exporter over generated inputs (the Lean AST type enforces kinds, so a theorem would be vacuous)']
-PARTIAL = ['scalar ranges and child kinds of *parsed* documents: exploration on the implementation only, until the '
-           'parser model covers the constructors (DESIGN.md C12)']
+PARTIAL = ['scalar ranges of parsed documents: heading level 1-6 and non-empty lists with well-formed leaders are proved for '
+           'every block-phase buffer (C12_heading_level_range, C12_list_items, from Proofs/DocTotal.lean); child kinds, exactly '
+           'one RawText in code/HTML blocks and parent links by object identity are enforced by the typed AST of the model and '
+           'checked on the real object graph by the exporter (run-time shape checks over generated inputs): exploration']
 
 TOKEN_SETS = ['HtmlRenderer', 'MarkdownRenderer', 'LaTeXRenderer', 'XWiki20Renderer']
 
